@@ -121,7 +121,7 @@ def enum_pairs() -> tuple:
     # 2. enums used as command arguments: APIClient method parameter annotated with a model enum <-> the
     #    enum-typed field of the request class the method constructs
     src = inspect.getsource(CL.APIClient)
-    tree = ast.parse("class _X:\n pass\n" + src) if False else ast.parse(src)
+    tree = ast.parse(src)
     cls = tree.body[0]
     for fn in cls.body:
         if not isinstance(fn, (ast.FunctionDef, ast.AsyncFunctionDef)):
